@@ -1,7 +1,234 @@
-(* C12 proofs (under construction) *)
-From Coq Require Import QArith Floats.SpecFloat.
-From verif Require Import lib.Base model.C11_Num model.C12.
+(* C12 — proofs about the float branches of model/C11_Num.v. *)
+From Coq Require Import QArith Qabs Qround Qcanon Lia Floats.SpecFloat.
+From verif Require Import lib.Base model.C11_Num model.C12 proofs.C11_proofs.
 Open Scope Z_scope.
 
-Lemma to_f64_big_is_inf z : in_int z = false -> to_f64 (NBig z) = S754_infinity (z <? 0).
+(* ------------------------------------------------------------------ *)
+(* unification to float64 *)
+Definition has_inexact (l : list num) : Prop := exists n, In n l /\ is_exact n = false.
+
+Lemma has_float_inexact l : has_float l = true <-> has_inexact l.
+Proof. unfold has_float, has_inexact. rewrite existsb_exists. split; intros (n & H1 & H2); exists n; split; auto.
+  - apply negb_true_iff, H2.
+  - apply negb_true_iff, H2. Qed.
+
+Lemma unify_float l t : has_inexact l -> unify l t = SFloat (map to_f64 l).
+Proof. intros (n & Hn & Hf). destruct (unify_type_rank l t) as [_ H]. rewrite Forall_forall in H.
+  specialize (H n Hn). destruct n; try discriminate. simpl in H. unfold unify.
+  destruct (unify_type l t); simpl in H; try lia. reflexivity. Qed.
+
+(* ------------------------------------------------------------------ *)
+(* fold shapes: conversion of every argument, then a left fold from the stated start *)
+Theorem add_float_fold l : has_inexact l ->
+  call CAdd l None = RVals [NFloat (fold_left fadd (map to_f64 l) fzero)].
+Proof. intros H. unfold call, call_raw, add. rewrite unify_float by exact H. reflexivity. Qed.
+
+Lemma mul_scan_cond l : forall h,
+  (let '(a, b) := mul_scan l h in a && negb b) = (h || existsb is_int0 l) && negb (existsb is_inf l).
+Proof. induction l as [|n l IH]; intros h; simpl.
+  - rewrite orb_false_r, andb_true_r. reflexivity.
+  - destruct (is_inf n); simpl.
+    + rewrite !andb_false_r. reflexivity.
+    + rewrite IH, orb_assoc. reflexivity. Qed.
+
+Theorem mul_float_fold l : has_inexact l ->
+  existsb is_int0 l && negb (existsb is_inf l) = false ->
+  call CMul l None = RVals [NFloat (fold_left fmul (map to_f64 l) fone)].
+Proof. intros H Hz. unfold call, call_raw, mul. pose proof (mul_scan_cond l false) as C.
+  destruct (mul_scan l false) as [a b]. simpl orb in C. rewrite C, Hz.
+  rewrite unify_float by exact H. reflexivity. Qed.
+
+Theorem sub_float_fold a r : has_inexact (a :: r) ->
+  call CSub (a :: r) None =
+  RVals [NFloat (match r with [] => fopp (to_f64 a) | _ => fold_left fsub (map to_f64 r) (to_f64 a) end)].
+Proof. intros H. unfold call, call_raw, sub. rewrite unify_float by exact H.
+  destruct r; reflexivity. Qed.
+
+Theorem div_float_fold a r : has_inexact (a :: r) ->
+  existsb is_int0 (a :: r) = false ->
+  call CDiv (a :: r) None =
+  RVals [NFloat (match r with [] => fdiv fone (to_f64 a) | _ => fold_left fdiv (map to_f64 r) (to_f64 a) end)].
+Proof. intros H Hz. simpl in Hz. apply orb_false_iff in Hz as [Ha Hr].
+  unfold call, call_raw, div. rewrite Hr, Ha. rewrite unify_float by exact H.
+  destruct r; reflexivity. Qed.
+
+(* the rounding functions and abs on a float are the float operation *)
+Theorem round_float md f : call (rcmd md) [NFloat f] None = RVals [NFloat (f_round md f)].
+Proof. destruct md; reflexivity. Qed.
+
+Theorem abs_float f : call CAbs [NFloat f] None = RVals [NFloat (fabs f)].
+Proof. reflexivity. Qed.
+
+Theorem inexact_num_conv n : call CInexactNum [n] None = RVals [NFloat (to_f64 n)].
+Proof. reflexivity. Qed.
+
+(* ------------------------------------------------------------------ *)
+(* the documented conversion rule *)
+Theorem to_f64_big_is_inf z : in_int z = false -> to_f64 (NBig z) = S754_infinity (z <? 0).
 Proof. intros H. simpl. rewrite H. reflexivity. Qed.
+
+(* ------------------------------------------------------------------ *)
+(* integers up to 2^53 convert exactly *)
+Lemma digits2_bounds p :
+  2 ^ (Z.pos (digits2_pos p) - 1) <= Z.pos p < 2 ^ Z.pos (digits2_pos p).
+Proof. induction p as [p IH|p IH|]; cbn [digits2_pos].
+  - rewrite Pos2Z.inj_succ. replace (Z.succ (Z.pos (digits2_pos p)) - 1) with (Z.succ (Z.pos (digits2_pos p) - 1)) by lia.
+    rewrite !Z.pow_succ_r by lia. lia.
+  - rewrite Pos2Z.inj_succ. replace (Z.succ (Z.pos (digits2_pos p)) - 1) with (Z.succ (Z.pos (digits2_pos p) - 1)) by lia.
+    rewrite !Z.pow_succ_r by lia. lia.
+  - cbn. lia. Qed.
+
+Definition signed (s : bool) (q : Z) : Z := if s then - q else q.
+
+Lemma f_of_small_value s q : 0 <= q <= 9007199254740992 ->
+  (f_to_Q (f_of_small s q) == signed s q # 1)%Q.
+Proof. intros Hq. destruct q as [|p|p]; try lia.
+  - destruct s; reflexivity.
+  - unfold f_of_small. pose proof (digits2_bounds p) as B. cbn [Zdigits2].
+    set (dg := Z.pos (digits2_pos p)) in *.
+    destruct (53 - dg <? 0) eqn:D.
+    + apply Z.ltb_lt in D. assert (dg = 54).
+      { assert (dg <= 54); [|lia]. destruct (Z_le_gt_dec dg 54); [assumption|].
+        assert (2 ^ 54 <= 2 ^ (dg - 1)) by (apply Z.pow_le_mono_r; lia).
+        change (2 ^ 54) with 18014398509481984 in *. lia. }
+      subst dg. rewrite H in B. change (2 ^ (54 - 1)) with 9007199254740992 in B.
+      assert (Z.pos p = 9007199254740992) by lia. rewrite H0. destruct s; reflexivity.
+    + apply Z.ltb_ge in D. rewrite Z.shiftl_mul_pow2 by lia.
+      assert (P : 0 < 2 ^ (53 - dg)) by (apply Z.pow_pos_nonneg; lia).
+      destruct (Z.pos p * 2 ^ (53 - dg)) as [|m|m] eqn:M; try lia.
+      cbn [f_to_Q]. destruct (0 <=? - (53 - dg)) eqn:E.
+      * apply Z.leb_le in E. assert (53 - dg = 0) by lia. rewrite H in *. cbn in M.
+        unfold Qeq. cbn [Qnum Qden]. change (2 ^ - 0) with 1. destruct s; cbn [signed]; lia.
+      * rewrite Qred_correct. rewrite Z.opp_involutive. unfold Qeq. cbn [Qnum Qden].
+        rewrite Z2Pos.id by lia. destruct s; cbn [signed]; lia.
+Qed.
+
+Theorem to_f64_int_exact_below_2p53 z : Z.abs z <= 9007199254740992 ->
+  (f_to_Q (to_f64 (NInt z)) == z # 1)%Q.
+Proof. intros H. cbn [to_f64]. unfold of_Z. apply Z.leb_le in H as H'. rewrite H'.
+  rewrite f_of_small_value by lia. unfold signed.
+  destruct (z <? 0) eqn:S; [apply Z.ltb_lt in S|apply Z.ltb_ge in S].
+  - rewrite Z.abs_neq by lia. rewrite Z.opp_involutive. reflexivity.
+  - rewrite Z.abs_eq by lia. reflexivity. Qed.
+
+(* ------------------------------------------------------------------ *)
+(* exact-num of a finite float: an exact canonical number of the float's value *)
+Theorem exact_num_value f : f_is_finite f = true ->
+  exists v, call CExactNum [NFloat f] None = RVals [v] /\ good v (f_to_Q f).
+Proof. intros H. unfold call, call_raw, exact_num. rewrite H. cbn [map_result map from_go].
+  eexists. split; [reflexivity|]. apply normalize_rat_good. Qed.
+
+Theorem exact_num_nonfinite f : f_is_finite f = false ->
+  call CExactNum [NFloat f] None = RErr ENotFinite.
+Proof. intros H. unfold call, call_raw, exact_num. rewrite H. reflexivity. Qed.
+
+(* ------------------------------------------------------------------ *)
+(* exact-num then inexact-num gives the float back: integers up to 2^53 *)
+Lemma Qred_int z : Qred (z # 1) = z # 1.
+Proof. apply Qred_iff. cbn. apply Z.gcd_1_r. Qed.
+
+Lemma f_of_small_finite s q : f_is_finite (f_of_small s q) = true.
+Proof. unfold f_of_small. destruct q; try reflexivity. destruct (_ <? 0); try reflexivity.
+  destruct (Z.shiftl _ _); reflexivity. Qed.
+
+Theorem exact_inexact_roundtrip_partial z : Z.abs z <= 9007199254740992 ->
+  let f := to_f64 (NInt z) in
+  call CInexactNum [NInt z] None = RVals [NFloat f]
+  /\ exists v, call CExactNum [NFloat f] None = RVals [v] /\ to_f64 v = f.
+Proof. intros H f. split; [reflexivity|].
+  pose proof (to_f64_int_exact_below_2p53 z H) as V. fold f in V.
+  assert (Fin : f_is_finite f = true).
+  { unfold f. cbn [to_f64]. unfold of_Z. apply Z.leb_le in H. rewrite H. apply f_of_small_finite. }
+  unfold call, call_raw, exact_num. rewrite Fin. cbn [map_result map from_go].
+  unfold normalize_rat. rewrite (Qred_complete _ _ V), Qred_int. cbn [Qden Qnum Pos.eqb].
+  unfold normalize_big.
+  assert (I : in_int z = true) by (apply in_int_iff; unfold min_int, max_int; lia).
+  rewrite I. eexists. split; reflexivity. Qed.
+
+(* ------------------------------------------------------------------ *)
+(* floor ceil trunc round round-to-even of a finite double are integers *)
+Lemma valid_mantissa s m e : fvalid (S754_finite s m e) = true -> Z.pos m < 9007199254740992.
+Proof. unfold fvalid, valid_binary, bounded, canonical_mantissa, fexp. intros H.
+  apply andb_true_iff in H as [H _]. apply Zeq_bool_eq in H.
+  pose proof (digits2_bounds m) as B. unfold prec, emax in H.
+  assert (D : Z.pos (digits2_pos m) <= 53) by lia.
+  assert (2 ^ Z.pos (digits2_pos m) <= 2 ^ 53) by (apply Z.pow_le_mono_r; lia).
+  change (2 ^ 53) with 9007199254740992 in *. lia. Qed.
+
+Theorem rounding_fn_integral md f : fvalid f = true -> f_is_finite f = true ->
+  exists z, (f_to_Q (f_round md f) == z # 1)%Q.
+Proof. intros Hv Hf. destruct f as [s|s| |s m e]; try discriminate.
+  - exists 0. reflexivity.
+  - cbn [f_round]. destruct (0 <=? e) eqn:E.
+    + cbn [f_to_Q]. rewrite E. eexists. reflexivity.
+    + apply Z.leb_gt in E. pose proof (valid_mantissa s m e Hv) as M.
+      set (q := Z.shiftr (Z.pos m) (- e)).
+      assert (Q : 0 <= q <= Z.pos m).
+      { unfold q. rewrite Z.shiftr_div_pow2 by lia.
+        assert (P : 0 < 2 ^ (- e)) by (apply Z.pow_pos_nonneg; lia). split.
+        - apply Z.div_pos; lia.
+        - apply Z.div_le_upper_bound; [lia|]. nia. }
+      match goal with |- context [f_of_small s ?x] => set (q' := x) end.
+      assert (Q' : 0 <= q' <= 9007199254740992) by (unfold q'; destruct (match md with RFloor => _ | _ => _ end); lia).
+      exists (signed s q'). apply f_of_small_value. exact Q'.
+Qed.
+
+(* ------------------------------------------------------------------ *)
+(* oracle soundness, and the model against the oracle on all-float calls *)
+Definition Spec_C12 (c : cmd) (args : list num) (obs : result) : Prop :=
+  match expect_C12 c args with
+  | YFloat f => exists g, obs = RVals [NFloat g] /\ f_eqb g f = true
+                /\ Forall (fun a => conv_ok a = true) args
+  | YRound md f => exists g, obs = RVals [NFloat g] /\ round_ok md f g = true
+  | YExact q => exists v, obs = RVals [v] /\ canon_ok v = true /\ (qv v == q)%Q
+  | YAny => True
+  end.
+
+Theorem check_C12_sound c args obs : check_C12 c args obs = true -> Spec_C12 c args obs.
+Proof. unfold check_C12, Spec_C12. destruct (expect_C12 c args) as [f|md f|q|]; intros H.
+  - apply andb_true_iff in H as [H1 H2].
+    destruct obs as [[|[| | |g] [|]]| | | | |]; try discriminate.
+    exists g. repeat split; auto. rewrite forallb_forall in H1. apply Forall_forall. exact H1.
+  - destruct obs as [[|[| | |g] [|]]| | | | |]; try discriminate. exists g. auto.
+  - destruct obs as [[|v [|]]| | | | |]; try discriminate. apply andb_true_iff in H as [H1 H2].
+    exists v. repeat split; auto. apply Qeq_bool_iff, H2.
+  - exact I. Qed.
+
+Lemma f_eqb_refl f : f_eqb f f = true.
+Proof. destruct f as [s|s| |s m e]; simpl; rewrite ?eqb_reflx, ?Pos.eqb_refl, ?Z.eqb_refl; reflexivity. Qed.
+
+Definition all_float (l : list num) : Prop := Forall (fun n => is_exact n = false) l.
+
+Lemma all_float_conv l : all_float l ->
+  map conv l = map to_f64 l /\ forallb conv_ok l = true
+  /\ existsb is_int0 l = false.
+Proof. induction 1 as [|n l H _ (I1 & I2 & I3)]; [repeat split|].
+  destruct n; try discriminate. simpl. rewrite I1, I2, I3. repeat split. Qed.
+
+Lemma all_float_has l : all_float l -> l <> [] -> has_float l = true /\ has_inexact l.
+Proof. intros H N. destruct l as [|n l]; [congruence|]. inversion H; subst.
+  split; [simpl; rewrite H2; reflexivity|]. exists n. split; [left; reflexivity|assumption]. Qed.
+
+(* for argument lists of floats the model's result passes the oracle: the
+   evaluation order of the code is the one the property states *)
+Theorem float_arith_meets_oracle c l : In c [CAdd; CSub; CMul; CDiv] ->
+  all_float l -> l <> [] ->
+  check_C12 c l (call c l None) = true.
+Proof. intros Hc Hl Hn. destruct (all_float_conv l Hl) as (C1 & C2 & C3).
+  destruct (all_float_has l Hl Hn) as [F1 F2].
+  unfold check_C12, expect_C12. rewrite F1. cbn [negb].
+  destruct Hc as [<-|[<-|[<-|[<-|[]]]]].
+  - rewrite C2, add_float_fold, C1 by exact F2. cbn. apply f_eqb_refl.
+  - destruct l as [|a r]; [congruence|]. rewrite sub_float_fold by exact F2.
+    inversion Hl; subst. destruct (all_float_conv r H2) as (R1 & _ & _).
+    destruct a; try discriminate. destruct r.
+    + rewrite C2. cbn. apply f_eqb_refl.
+    + rewrite C2, R1. cbn [andb conv to_f64]. apply f_eqb_refl.
+  - rewrite C3. cbn [andb]. rewrite C2, mul_float_fold, C1; [cbn; apply f_eqb_refl|exact F2|rewrite C3; reflexivity].
+  - destruct l as [|a r]; [congruence|]. rewrite div_float_fold by (exact F2 || exact C3).
+    inversion Hl; subst. destruct (all_float_conv r H2) as (R1 & _ & R3).
+    simpl in C3. apply orb_false_iff in C3 as [A0 _]. rewrite R3, A0. cbn [orb].
+    destruct a; try discriminate. destruct r.
+    + rewrite C2. cbn. apply f_eqb_refl.
+    + rewrite C2, R1. cbn [andb conv to_f64]. apply f_eqb_refl.
+Qed.
